@@ -181,6 +181,50 @@ example : (runA true (ofStrings [("s0", "G-ANT".toList), ("s1", "A-CNT".toList)]
       [.filterMask [true, false, true, false, true], .keep [(0, 1), (2, 3)]]).toOption.map (fun r => showA r.1)
     = some [("s0", "GT".toList), ("s1", "AT".toList)] := by decide
 
+/-! ## Added by the audit: totality of `rc` and of integer indexing (the two are conditional above) -/
+
+/-- `Aligned.rc()` never raises on a well-formed row; with `rc_refines` this is total correctness. -/
+theorem rc_total (dna : Bool) (r : Row) (h : RowWF r) :
+    ∃ r', rowRc dna r = .ok r' ∧ RowWF r' ∧ gapped r' = (gapped r).reverse.map (comp dna) := by
+  have hm := nucleicReversed_ok r.map h.1
+  generalize (⟨(r.map.gapPos.map (r.map.parentLength - ·)).reverse,
+      cumsum (gapLengths r.map.cumLens).reverse, r.map.parentLength⟩ : IMap) = m at hm
+  have hr : rowRc dna r = .ok ⟨m, (r.data.reverse).map (comp dna)⟩ := by
+    unfold rowRc; rw [hm]
+  exact ⟨_, hr, rowRc_spec dna r _ h hr⟩
+
+example : ∃ r', rowRc true (rowOfString "-AC--G".toList) = .ok r' ∧ gapped r' = "C--GT-".toList := ⟨_, rfl, by decide⟩
+
+/-- Integer indexing returns a row for every index Python accepts (`-len ≤ i < len`) and shows that
+column's character; outside that range it is an IndexError, as for a string. -/
+theorem int_total (r : Row) (h : RowWF r) (i : Int) (h0 : -len r.map ≤ i) (h1 : i < len r.map) :
+    ∃ r', rowInt r i = .ok r' ∧ RowWF r' ∧ ∃ c, PySlice.index (gapped r) i = some c ∧ gapped r' = [c] := by
+  have hlen : (0 : Int) ≤ len r.map := by rw [len_eq_display r h]; omega
+  obtain ⟨r', hr⟩ : ∃ r', rowInt r i = .ok r' := by
+    unfold rowInt
+    by_cases hi : i < 0
+    · simp only [hi, if_true]
+      rw [if_pos (by omega)]
+      obtain ⟨r', hr, _⟩ := slice_total r h (some (i + len r.map)) (some (i + len r.map + 1))
+        (by intro x hx; cases hx; omega) (by intro y hy; cases hy; omega)
+      exact ⟨r', hr⟩
+    · simp only [hi, if_false]
+      rw [if_pos (by omega)]
+      obtain ⟨r', hr, _⟩ := slice_total r h (some i) (some (i + 1))
+        (by intro x hx; cases hx; omega) (by intro y hy; cases hy; omega)
+      exact ⟨r', hr⟩
+  exact ⟨r', hr, int_refines r r' h i hr⟩
+
+theorem int_out_of_range (r : Row) (i : Int) (h : i < -len r.map ∨ len r.map ≤ i) :
+    rowInt r i = .error .indexError := by
+  unfold rowInt
+  by_cases hi : i < 0
+  · simp only [hi, if_true]; rw [if_neg (by omega)]
+  · simp only [hi, if_false]; rw [if_neg (by omega)]
+
+example : ∃ r', rowInt (rowOfString "A-C".toList) (-3) = .ok r' ∧ gapped r' = ['A'] := ⟨_, rfl, by decide⟩
+example : rowInt (rowOfString "A-C".toList) 3 = .error .indexError := by decide
+
 /- FULL STATEMENT (not proved): the error clause of the history theorem (both classes raise IndexError
    together; a negative slice bound below -len is refused by the annotatable class but clamped by the
    dense one), and the evaluation of the column predicates themselves (`AllowedCharacters`, `GapsOk`
